@@ -37,6 +37,11 @@ RULE_ROUNDS = ("; scenario streams: whole histories of the real controller (fres
                "each scenario ends with a summary line judged by the cross-round oracle")
 
 
+RULE_INTERLEAVE = ("; interleave stream: single syncs working from a cache filled before 1-2 outside writes (child deleted, deleted and recreated under the "
+                   "same name, handed to another controller, relabelled, given an extra owner reference or label; parent starts being deleted or is replaced) "
+                   "that happen either before the sync (stale cache) or just before its k-th request")
+
+
 def sync_prop(theorems, nontrivial, rule, areas, assumptions=None, extra_streams=None):
     return {"theorems": theorems, "streams": SYNC_STREAMS + (extra_streams or []), "nontrivial": nontrivial,
             "rule": RULE_SYNC + rule, "areas": areas, "trusted_base": TB_SYNC,
@@ -68,6 +73,9 @@ C06LT = [("Mc.Props.C06Lift", "Mc.C06.C06_distinct_targets"), ("Mc.Props.C06Lift
 
 C08T = [("Mc.Props.C07", "Mc.C07." + t) for t in ["C07_gate", "C07_child_happy", "C07_wait", "C07_progress", "C07_complete", "C07_complete_forall", "C07_claims_filtered"]]
 
+C01T = [("Mc.Props.C01", "Mc.C01." + t) for t in ["silent_ret", "C01_updateGroup_quiet", "C01_deleteGroup_quiet", "C01_manage_quiet", "C01_equal_is_fix", "C01_ssa_quiet"]] + \
+       [("Mc.Props.C06", "Mc.C06.C06_equal_no_write"), ("Mc.Props.C05", "Mc.C05.C05_idempotent"), ("Mc.Props.C05", "Mc.C05.C05_self_merge"), ("Mc.Props.C05", "Mc.C05.C05_contains")]
+
 PROPS = {
     "C19": {
         "theorems": C19T,
@@ -80,10 +88,15 @@ PROPS = {
         "trusted_base": TB_COMMON + ["modelled not verified: net/http, sigs.k8s.io/json strict decoding (classified by the harness's four body classes), zcache (present/expired)"],
         "assumptions": ["Retry-After dates are compared on whole seconds; byte-level decoding is library code compared through four representative bodies"],
     },
+    "C01": sync_prop(C01T, ["rounds-converge", "judged-converge"],
+                     "non-trivial = a convergence scenario judged by the cross-round oracle (no foreign object on a desired name)" + RULE_ROUNDS, ["children", "claim", "status", "outcome"],
+                     extra_streams=[rounds("converge", 240, 2400, ["judged-converge"])]),
     "C02": sync_prop(C02T + C04T[:1] + C04T[3:6] + C06T[-1:], ["create-child", "update-child", "delete-child", "apply-child", "create-revision", "update-revision", "delete-revision"],
-                     "non-trivial = some child or ControllerRevision write was accepted", ["claim", "children", "revisions"]),
+                     "non-trivial = some child or ControllerRevision write was accepted" + RULE_INTERLEAVE, ["claim", "children", "revisions"],
+                     extra_streams=[rounds("interleave", 600, 6000, ["create-child", "update-child", "delete-child", "failed-update", "failed-delete"])]),
     "C04": sync_prop(C04T, ["update-child", "update-revision", "failed-update"],
-                     "non-trivial = an ownership edit or another child update was attempted", ["claim"]),
+                     "non-trivial = an ownership edit or another child update was attempted" + RULE_INTERLEAVE, ["claim"],
+                     extra_streams=[rounds("interleave", 600, 6000, ["update-child", "update-revision", "failed-update"])]),
     "C06": sync_prop(C06T + C06LT, ["update-child", "delete-child", "create-child"],
                      "non-trivial = some child write was accepted", ["children"]),
     "C03": sync_prop(C03T, ["hook-sync", "hook-finalize"],
@@ -105,7 +118,9 @@ PROPS = {
                      "non-trivial = some request failed or the sync reported an error" + RULE_ROUNDS, ["outcome", "children", "status", "claim", "revisions", "finalizer", "parent"],
                      extra_streams=[rounds("faults", 96, 960, ["rounds-faults", "failed-create", "failed-update", "failed-delete", "failed-updateStatus", "outcome-error"])]),
     "C13": sync_prop(C13T, ["outcome-error", "hook-sync", "hook-finalize"],
-                     "non-trivial = a hook was called", ["outcome", "hook", "children"]),
+                     "non-trivial = a hook was called; malformed stream: the scripted hook answer with one value at a random path replaced by every JSON type, "
+                     "truncated / non-object / null bodies and non-200 codes", ["outcome", "hook", "children"],
+                     extra_streams=[rounds("malformed", 800, 8000, ["outcome-error", "hook-sync", "hook-finalize"])]),
     "C10": sync_prop(C10T + C10ST, ["update-parent", "hook-finalize", "create-child"],
                      "non-trivial = the parent was edited, the finalize hook called, or a child created", ["finalizer", "parent", "hook", "children"]),
 
